@@ -258,11 +258,21 @@ Definition shards_cols (ss : shards) : Z :=
    number of rows; every cview present in a shard (started there or continued from above) is
    at least as tall as the rows that remain for it; in every shard the widths of all cviews
    present add up to the canvas width; at the end nothing is left pending. *)
+(* a row of a text canvas never starts with the right half nor ends with the left half of a
+   double-width character (it is made of whole characters) *)
+Definition first_okb (r : row) : bool :=
+  match r with [] => true | c :: _ => match ck c with KR => false | _ => true end end.
+Fixpoint last_okb (r : row) : bool :=
+  match r with
+  | [] => true
+  | c :: r' => match r' with [] => match ck c with KL => false | _ => true end | _ :: _ => last_okb r' end
+  end.
+Definition row_cleanb (r : row) : bool := first_okb r && last_okb r.
 Definition cview_okb (cv : cview) : bool :=
   (0 <? ccols cv) && (0 <? crows cv) &&
   match cknd (ccanv cv) with
   | LText rws mc =>
-      forallb (fun r : row => zlen r =? mc) rws &&
+      forallb (fun r : row => (zlen r =? mc) && row_cleanb r) rws &&
       (0 <=? tl cv) && (tl cv + ccols cv <=? mc) && (0 <=? tt cv) && (tt cv + crows cv <=? zlen rws)
   | _ => true
   end.
